@@ -454,6 +454,24 @@ func c07Conn(r *fw.R, beh string, role Role, p wire.Params, seed uint64, success
 		dict := rng.Bytes(32768)
 		probeSender := &wire.Deflater{Takeover: true}
 		probeSender.Prime(dict)
+		warmed := false
+		if def.Takeover && rng.Bool() {
+			// one valid compressed message first: a receiver whose window only comes to life with the first
+			// message it has decoded is probed after that
+			const warmID = 1 << 20
+			for _, f := range sendMsg(warmID, 16*(20+rng.Intn(100)), true, 1, wire.EndSync) {
+				peer.Send(f)
+			}
+			if _, err := c07ReadMsg(ctx, r, c, k, warmID, beh, 512); err != nil {
+				if err.Error() != "provenance" {
+					r.Violate("C07/read-failed", fmt.Sprintf("connection %d (%s, successor): reading a valid first compressed message failed: %v", k, beh, err), "")
+				}
+				outcome = "error"
+				return
+			}
+			warmed = true
+			r.Count("dictionary_probes_after_a_first_valid_message", 1)
+		}
 		for i := 0; i < 2; i++ {
 			off := rng.Intn(30000)
 			target := dict[off : off+400+rng.Intn(2000)]
@@ -484,7 +502,7 @@ func c07Conn(r *fw.R, beh string, role Role, p wire.Params, seed uint64, success
 					}
 				}
 				if !allZero {
-					r.Violate("C07/stale-dictionary-leaks-bytes", fmt.Sprintf("connection %d (fresh, nothing received so far): a DEFLATE stream with back-references before its own start returned %d bytes %x... (err=%v)", k, len(got), got[:min(len(got), 16)], rerr), "")
+					r.Violate("C07/stale-dictionary-leaks-bytes", fmt.Sprintf("connection %d (fresh, one valid message received before: %v): a DEFLATE stream with back-references before its own start returned %d bytes %x... (err=%v)", k, warmed, len(got), got[:min(len(got), 16)], rerr), "")
 					outcome = "leak"
 					return
 				}
